@@ -156,7 +156,7 @@ def c01(tier):
     cases += grams.chain_family() + grams.order_variants(grams.curated("lang"), rng, reverse=True, shuffles=0 if quick else 2)
     cases += grams.rename_variants(grams.curated("lang") + grams.self_nesting())
     cases += grams.self_nesting()
-    nrand = 60 if quick else 700
+    nrand = 60 if quick else 400
     cases += grams.random_grammars(seed(), nrand, prefix="rnd", sugar=0.3)
     cases += grams.random_grammars(seed() + 7919, nrand // 3, prefix="rnde", sugar=0.2, err=0.08)
     if not quick:
@@ -174,7 +174,7 @@ def c01(tier):
     if not acc:
         raise Infra("no grammar was accepted")
     log("C01: %d cases, %d accepted, %d with conflicts" % (len(cases), len(acc), len(rejected)))
-    cap = 700 if quick else 6000
+    cap = 700 if quick else 2500
     extra = {c["id"]: random_sentences(c, rng, 6 if quick else 30) for c in acc}
     jobs = lang_jobs(acc, cap, 60 if quick else 200, extra=extra)
     recs, hangs = run_jobs(sc, runner, jobs)
@@ -276,7 +276,7 @@ def explore(rep, sc, cases, chk_of, cap, fullcap, with_error, rng, nsent, budget
     idx = {c["gen"]["pkg"]: i for i, c in enumerate(acc)}
     tcases = [tlc_case(c) for c in acc]
     truns = [tlc_run(x, idx[x["case"]], chk_of(acc[idx[x["case"]]])) for x in recs]
-    bad, ro = run_obs(sc, tcases, truns, tag="obs")
+    bad, ro = run_obs(sc, tcases, truns, tag="obs", chunk=60000)
     full = [r for r in truns if r["full"]]
     if len(full) > trace_cap:
         rng.shuffle(full)
@@ -318,7 +318,7 @@ def c03(tier):
     rng = random.Random(seed())
     quick = tier == "quick"
     cases = grams.curated("lang")
-    cases += grams.random_grammars(seed() + 3, 60 if quick else 600, prefix="rnd3", sugar=0.45)
+    cases += grams.random_grammars(seed() + 3, 60 if quick else 220, prefix="rnd3", sugar=0.45)
     # the same grammars with one Go result type for every rule: neighbouring stack entries then have identical
     # types, so a wrong Peek index or a lenient cast cannot hide behind a failed type assertion
     uni = []
@@ -329,7 +329,7 @@ def c03(tier):
     for c in cases:
         c["bounds"] = False
     cases = replay_filter(cases)
-    X = explore(rep, sc, cases, lambda c: ["c03"], 400 if quick else 3000, 400 if quick else 3000,
+    X = explore(rep, sc, cases, lambda c: ["c03"], 400 if quick else 1200, 400 if quick else 1200,
                 False, rng, 10 if quick else 40)
     acc, truns = X["acc"], X["truns"]
     for b in X["bad"]:
@@ -361,7 +361,7 @@ def c16(tier):
     quick = tier == "quick"
     base = grams.curated("bounds") + [c for c in grams.curated("lang")
                                       if not any(T["k"] == "starF" for r in c["rules"] for p in r["prods"] for T in p["terms"])]
-    rnd = grams.random_grammars(seed() + 16, 50 if quick else 500, prefix="rnd16", sugar=0.4)
+    rnd = grams.random_grammars(seed() + 16, 50 if quick else 180, prefix="rnd16", sugar=0.4)
     rnd = [c for c in rnd if not any(T["k"] == "starF" for r in c["rules"] for p in r["prods"] for T in p["terms"])]
     cases = []
     for c in base + rnd:
@@ -370,7 +370,7 @@ def c16(tier):
         cases += [a, b]
     cases = replay_filter(cases)
     X = explore(rep, sc, cases, lambda c: ["c16"] if c["bounds"] else ["c03", "c16n"],
-                300 if quick else 2500, 300 if quick else 2500, False, rng, 10 if quick else 40)
+                300 if quick else 900, 300 if quick else 900, False, rng, 10 if quick else 40)
     acc, truns = X["acc"], X["truns"]
     for b in X["bad"]:
         run, c = truns[b["r"]], acc[b["c"]]
@@ -400,13 +400,13 @@ def c09(tier):
     rng = random.Random(seed())
     quick = tier == "quick"
     cases = grams.curated("err") + grams.curated("lang")[:12]
-    cases += grams.random_grammars(seed() + 9, 60 if quick else 600, prefix="rnd9", sugar=0.2, err=0.12)
+    cases += grams.random_grammars(seed() + 9, 60 if quick else 300, prefix="rnd9", sugar=0.2, err=0.12)
     # (d) rebuilds the consumed symbols from the action arguments: no `*!` (it drops elements)
     cases = [c for c in cases if not any(T["k"] == "starF" for r in c["rules"] for p in r["prods"] for T in p["terms"])]
     for c in cases:
         c["bounds"] = False
     cases = replay_filter(cases)
-    X = explore(rep, sc, cases, lambda c: ["c09"], 500 if quick else 4000, 500 if quick else 4000,
+    X = explore(rep, sc, cases, lambda c: ["c09"], 500 if quick else 1500, 500 if quick else 1500,
                 True, rng, 6 if quick else 30, budget=80)
     acc, truns = X["acc"], X["truns"]
     for h in X["hangs"]:
